@@ -957,3 +957,81 @@ def run_inel_history(case, rec):
 
 
 SUBS.append(Sub("inelastic_history", run_inel_history, gen=inel_histories, quick=40, thorough=300, shards=4))
+
+
+# ------------------------------------------------------------------------------------------
+# (added by the lead) "restoring an earlier iteration": a run of saved load steps, an earlier iteration restored, one more
+# step solved from it - against a NEW simulation that replays the steps up to that iteration and then solves the same step.
+# History-dependent simulations (phase field with each of its solvers, inelastic, hyperelastic) and the transient linear ones.
+
+
+@st.composite
+def restore_histories(draw):
+    from checks import c15_save_restore as c15
+
+    kind = draw(st.sampled_from(["phasefield", "phasefield", "inelastic", "inelastic", "hyperelastic", "thermal", "elastic_dyn"]))
+    n = draw(st.integers(3, 5))
+    peak = draw(st.integers(1, n))
+    loads = [round(0.5 * (k + 1), 3) if k < peak else round(0.5 * peak - 0.4 * (k + 1 - peak), 3) for k in range(n)]
+    case = dict(kind=kind, recipe=draw(gm.recipes2d(types=c15.SMALL, affine_ok=False, perm_ok=False, hmin=7, hmax=9, nmax=4)),
+                # PhaseField.Save_Iter stores the convergence record of the last Solve and needs one: no initial save there
+                loads=loads, initial_save=draw(st.booleans()) and kind != "phasefield", j=draw(st.integers(0, n - 1)),
+                lam_next=draw(st.sampled_from([0.25, 0.75, 1.25, 2.0, 2.5])))
+    if kind == "elastic_dyn":
+        case["algo"] = draw(st.sampled_from(["newmark", "midpoint", "hht", "euler_implicit"]))
+    if kind == "phasefield":
+        case["pfsolver"] = draw(st.sampled_from(["History", "HistoryDamage", "BoundConstrain"]))
+        case["regu"] = draw(st.sampled_from(["AT1", "AT2"]))
+        case["split"] = draw(st.sampled_from(["Miehe", "Amor", "Bourdin"]))
+        case["conv"] = draw(st.sampled_from([None, None, 0, 3]))
+    return case
+
+
+def run_restore_history(case, rec):
+    from checks import c15_save_restore as c15
+
+    kind = case["kind"]
+    ad = c15.Adapter(kind, case)
+    sig = dict(kind=kind, solver=case.get("pfsolver", "-"), initial_save=bool(case["initial_save"]))
+    rec.label("kind:" + kind, "initial_save" if case["initial_save"] else "no_initial_save")
+    if kind == "phasefield":
+        rec.label("pfsolver:" + case["pfsolver"])
+    n0 = 1 if case["initial_save"] else 0
+    j = int(case["j"]) % (len(case["loads"]) + n0)  # index of the restored iteration
+    last = len(case["loads"]) + n0 - 1
+
+    def run(upto_iter):
+        """a new simulation with the saved history up to iteration `upto_iter` (None: the whole run)"""
+        s = ad.make(case["recipe"])
+        if case["initial_save"]:
+            s.Save_Iter()
+        for k, lam in enumerate(case["loads"]):
+            if upto_iter is not None and k + n0 > upto_iter:
+                break
+            ad.step(s, lam)
+            s.Save_Iter()
+        return s
+
+    simu = run(None)
+    simu.Set_Iter(j)
+    ad.step(simu, case["lam_next"])
+    A = ad.fields(simu)
+    fresh = run(j)
+    ad.step(fresh, case["lam_next"])
+    B = ad.fields(fresh)
+    rec.label("restored:last" if j == last else "restored:earlier", "restored:initial" if (j == 0 and n0) else "restored:solved")
+    for k in B:
+        rec.require(A[k].shape == B[k].shape, "restore_shape", f"{kind}: '{k}' {A[k].shape} vs {B[k].shape}", **sig)
+        # damage lives in [0, 1]; the other fields are of the order of the imposed values (1e-2 .. 1): absolute floors accordingly
+        rec.close(A[k] - B[k], float(np.abs(B[k]).max()) + (1e-3 if k == "damage" else 1e-8), 1e-9, "step_after_restore",
+                  f"{kind} ({sig['solver']}): the step solved after Set_Iter({j}) of a run of {last + 1} saved iterations differs in '{k}' from "
+                  f"the same step of a new simulation replayed up to iteration {j} (loads {case['loads']}, next {case['lam_next']})", field=k, **sig)
+    ra, rb = ad.results(simu), ad.results(fresh)
+    for nm in rb:
+        if nm in ra and ra[nm].shape == rb[nm].shape:
+            rec.close(ra[nm] - rb[nm], float(np.abs(rb[nm]).max()) + 1e-9, 1e-8, "result_after_restore",
+                      f"{kind}: Result('{nm}') after the step solved from the restored iteration {j}", name=nm, **sig)
+    rec.nontrivial(j < last and float(max(np.abs(v).max() for v in B.values())) > 0)
+
+
+SUBS.append(Sub("restore_then_solve", run_restore_history, gen=restore_histories, quick=60, thorough=500, shards=6))
